@@ -20,10 +20,33 @@ const controlSource = `package main
 import (
 	"os"
 	"os/exec"
+	"sync"
 	"time"
 )
 
 var global int
+
+type counter struct {
+	mu sync.Mutex
+	n  int
+}
+
+func (c *counter) get() int { c.mu.Lock(); defer c.mu.Unlock(); return c.n }
+
+func (c *counter) read() int { return c.get() }
+
+func (c *counter) bump(twice bool) {
+	c.mu.Lock()
+	defer c.mu.Unlock()
+	c.n = c.read() + 1
+}
+
+func (c *counter) fine(other *counter) int {
+	c.mu.Lock()
+	n := other.get()
+	c.mu.Unlock()
+	return n + c.get()
+}
 
 func effects() error {
 	if err := os.WriteFile("x", nil, 0o600); err != nil {
@@ -116,6 +139,21 @@ func PositiveControlEffects(run *core.Run, prog *load.Program) {
 // PositiveControlDeterminism / Panics: the planted constructs must be reported.
 func PositiveControlDeterminism(run *core.Run, prog *load.Program) {
 	control(run, prog, "determinism", []string{"G-DET/map-range", "G-DET/go", "G-DET/clock", "G-DET/environment", "G-DET/global-state"}, func(r *core.Run, fp *load.Program) { CheckDeterminism(r, fp) })
+}
+
+// PositiveControlLocks: the planted self-deadlock (bump → read → get on one receiver) must be reported, and
+// only that one (fine() locks another instance and re-locks after the unlock).
+func PositiveControlLocks(run *core.Run, prog *load.Program) {
+	got, err := controlRun(prog, func(r *core.Run, fp *load.Program) { CheckGeneratorLocks(r, fp) })
+	if err != nil {
+		run.Undecided("CONTROL/locks", "fixture", "checker/internal/gen/effects_graph.go", "the positive-control fixture cannot be analysed: "+err.Error())
+		return
+	}
+	if got["G-LOCK/reentrant"] != 1 {
+		run.Undecided("CONTROL/locks", "planted-defects", "checker/internal/gen/effects_graph.go", fmt.Sprintf("the control fixture holds exactly one re-entrant lock (bump → read → get); G-LOCK/reentrant reports %d: the rule has gone blind or raises false alarms", got["G-LOCK/reentrant"]))
+		return
+	}
+	run.Check("CONTROL/locks", "planted-defects-reported", "checker/internal/gen/effects_graph.go", true, "")
 }
 
 func PositiveControlPanics(run *core.Run, prog *load.Program) {
